@@ -452,6 +452,26 @@ where
   }
 }
 
+// Verification hooks: raw access to the private fields (compiled only with --cfg rustdds_verif).
+#[cfg(rustdds_verif)]
+impl<N> NumberSet<N>
+where
+  N: Clone + Copy + Debug + Hash + PartialEq + Eq + NumOps + From<i64> + Ord + PartialOrd,
+  i64: From<N>,
+{
+  pub(crate) fn verif_from_parts(bitmap_base: N, num_bits: u32, bitmap: Vec<u32>) -> Self {
+    Self {
+      bitmap_base,
+      num_bits,
+      bitmap,
+    }
+  }
+
+  pub(crate) fn verif_parts(&self) -> (N, u32, Vec<u32>) {
+    (self.bitmap_base, self.num_bits, self.bitmap.clone())
+  }
+}
+
 impl<'a, C: Context, N> Readable<'a, C> for NumberSet<N>
 where
   N:
